@@ -66,6 +66,9 @@ pub fn stub_format(_a: std::fmt::Arguments<'_>) -> String {
 
 const UIDS: [&str; 3] = ["a", "b", "z"]; // "z" is never a user
 const TOKENS: [&str; 3] = ["t1", "t2", "zz"]; // "zz" is never issued
+/// Tokens presented by a client: the two issued ones, an unknown one, and strings that merely share a prefix with an issued
+/// token (empty, proper prefix, extension) — none of the latter was ever issued.
+const QUERY: [&str; 6] = ["t1", "t2", "zz", "", "t", "t1x"];
 
 fn now() -> u64 {
     #[cfg(kani)]
@@ -113,15 +116,42 @@ fn draw<S: Src, const N: usize>(s: &mut S) -> ([bool; N], [u64; N], u64) {
     unsafe {
         NOW = t;
     }
-    let base = now();
     let mut has = [false; N];
-    let mut exp = [0u64; N];
+    let mut offs = [0u64; N];
     let mut i = 0;
     while i < N {
         has[i] = s.bool();
         // expiry in [base-50_000, base+50_000]: covers expired, expiring exactly now, and live sessions
-        let off = (s.u16() as u64) % 100_001;
-        exp[i] = base + off - 50_000;
+        offs[i] = (s.u16() as u64) % 100_001;
+        i += 1;
+    }
+    // native replay of a boundary case (expiry == now): start right after a tick of the wall clock so that the whole
+    // operation runs within the same second
+    #[cfg(not(kani))]
+    {
+        let mut boundary = false;
+        let mut i = 0;
+        while i < N {
+            if has[i] && offs[i] == 50_000 {
+                boundary = true;
+            }
+            i += 1;
+        }
+        if boundary {
+            loop {
+                let d = std::time::UNIX_EPOCH.elapsed().unwrap();
+                if d.subsec_millis() < 30 {
+                    break;
+                }
+                std::thread::sleep(std::time::Duration::from_millis(5));
+            }
+        }
+    }
+    let base = now();
+    let mut exp = [0u64; N];
+    let mut i = 0;
+    while i < N {
+        exp[i] = base + offs[i] - 50_000;
         i += 1;
     }
     let _ = t;
@@ -138,14 +168,14 @@ fn unchanged<const N: usize>(v: &Vec<User>, i: usize, has: &[bool; N], exp: &[u6
 /// op: refresh_session(token)
 pub fn refresh<S: Src, const N: usize>(s: &mut S) {
     let (has, exp, base) = draw::<S, N>(s);
-    let ti = (s.u8() % 3) as usize;
+    let ti = (s.u8() % 6) as usize;
     let mut v = users::<N>(has, exp);
     let mut p = AuthProvider::new(Db(&mut v as *mut _));
-    let r = p.refresh_session(TOKENS[ti]);
-    let owner = if ti < N && has[ti] { Some(ti) } else { None };
+    let r = p.refresh_session(QUERY[ti]);
+    let owner = if ti < 2 && ti < N && has[ti] { Some(ti) } else { None };
     let live = owner.map(|i| base < exp[i]).unwrap_or(false);
     #[cfg(not(kani))]
-    let live = if owner.map(|i| exp[i] >= base && exp[i] <= base + 3).unwrap_or(false) { s.assume(false); live } else { live }; // real clock may tick: skip the boundary natively
+    let live = if owner.map(|i| exp[i] > base && exp[i] <= base + 3).unwrap_or(false) { s.assume(false); live } else { live }; // real clock may tick: skip the boundary natively
     if live {
         assert!(r.is_ok(), "C17 refresh: a live token can be refreshed");
         let i = owner.unwrap();
@@ -175,13 +205,13 @@ pub fn refresh<S: Src, const N: usize>(s: &mut S) {
 /// op: get_uid_by_token(token)
 pub fn lookup<S: Src, const N: usize>(s: &mut S) {
     let (has, exp, base) = draw::<S, N>(s);
-    let ti = (s.u8() % 3) as usize;
+    let ti = (s.u8() % 6) as usize;
     let mut v = users::<N>(has, exp);
     let p = AuthProvider::new(Db(&mut v as *mut _));
-    let r = p.get_uid_by_token(TOKENS[ti]);
-    let owner = if ti < N && has[ti] { Some(ti) } else { None };
+    let r = p.get_uid_by_token(QUERY[ti]);
+    let owner = if ti < 2 && ti < N && has[ti] { Some(ti) } else { None };
     #[cfg(not(kani))]
-    if owner.map(|i| exp[i] >= base && exp[i] <= base + 3).unwrap_or(false) {
+    if owner.map(|i| exp[i] > base && exp[i] <= base + 3).unwrap_or(false) {
         s.assume(false);
     }
     let live = owner.map(|i| base < exp[i]).unwrap_or(false);
@@ -204,13 +234,14 @@ pub fn lookup<S: Src, const N: usize>(s: &mut S) {
 /// op: invalidate_session(token) / invalidate_user_session(uid) / remove_user(uid), selected by OP.
 pub fn invalidate<S: Src, const N: usize, const OP: usize>(s: &mut S) {
     let (has, exp, _base) = draw::<S, N>(s);
-    let k = (s.u8() % 3) as usize;
+    let kq = (s.u8() % 6) as usize;
+    let k = kq % 3;
     let mut v = users::<N>(has, exp);
     let mut p = AuthProvider::new(Db(&mut v as *mut _));
     match OP {
         0 => {
-            p.invalidate_session(TOKENS[k]);
-            let owner = if k < N && has[k] { Some(k) } else { None };
+            p.invalidate_session(QUERY[kq]);
+            let owner = if kq < 2 && kq < N && has[kq] { Some(kq) } else { None };
             let mut j = 0;
             while j < N {
                 if Some(j) == owner {
@@ -220,7 +251,7 @@ pub fn invalidate<S: Src, const N: usize, const OP: usize>(s: &mut S) {
                 }
                 j += 1;
             }
-            assert!(p.get_uid_by_token(TOKENS[k]).is_err(), "C17 invalidate: an invalidated token no longer authenticates");
+            assert!(p.get_uid_by_token(QUERY[kq]).is_err(), "C17 invalidate: an invalidated token no longer authenticates");
         }
         1 => {
             p.invalidate_user_session(UIDS[k]);
